@@ -210,7 +210,13 @@ class Tr:
                     try:
                         env[tg.id] = self.expr(s.value, env, k)
                     except Unsupported as e:
-                        env[tg.id] = ("var", tg.id) if getattr(self, "plain_locals", False) else ("var", f"loc:{k}.{fname}.{tg.id}")
+                        if getattr(self, "plain_locals", False):
+                            env[tg.id] = ("var", tg.id)
+                        elif self.flow:
+                            env[tg.id] = ("var", f"loc:{k}.{fname}.{tg.id}")
+                        else:
+                            # an untranslatable array computation inside a component method: visible as non-elementwise
+                            env[tg.id] = ("nonElem", f"opaque:{tg.id}", ("var", f"loc:{k}.{fname}.{tg.id}"))
                         self.notes.append(f"{k}.{fname}: {tg.id} opaque ({e})")
             elif isinstance(s, ast.Assign) and len(s.targets) == 1 and isinstance(s.targets[0], ast.Tuple) and not isinstance(s.value, ast.Tuple) \
                     and getattr(self, "plain_locals", False):
